@@ -683,6 +683,23 @@ def run(chk):
             infos.append(("program", it, cs0, {"inadequate": None, "final_keys": [1, 2, 3], "findings_corpus": fn}))
             cases.append({"p": 10, "docs": s.docs, "root": r, "program": prog})
             continue
+        if 30 <= i < 40:
+            # corpus: top-level roles with thresholds above 1 (2 of 2, 2 of 3), signed with all, with enough, and with
+            # some but not enough of a role's keys (sign must refuse: an under-signed role is loadable by nobody)
+            cs0 = i % 2 == 0
+            roles = {"root": ([0], 1), "snapshot": ([1, 5], 2), "targets": ([2, 6, 7], 2), "timestamp": ([3, 4], 2)}
+            fk = [[1, 5, 2, 6, 7, 3, 4], [1, 5, 2, 7, 3, 4], [1, 5, 2, 3, 4], [1, 2, 6, 3, 4], [1, 5, 2, 6, 3]][(i - 30) // 2]
+            it = Intent()
+            it.top = {"a.txt": "content-%d" % i}
+            it.versions = (i, i + 1, i + 2)
+            prog = [{"op": "new"}, {"op": "add_target", "name": "a.txt", "content": it.top["a.txt"]},
+                    {"op": "versions", "targets": it.versions[0], "snapshot": it.versions[1], "timestamp": it.versions[2]},
+                    {"op": "expires", "targets": 86400 * 50, "snapshot": 86400 * 51, "timestamp": 86400 * 52},
+                    {"op": "sign_write", "keys": fk, "publish": "all", "link": False}, {"op": "load"}]
+            r = s.root(cs=cs0, roles=roles)
+            infos.append(("program", it, cs0, {"inadequate": None, "final_keys": fk, "thresholds": "2 of n"}))
+            cases.append({"p": 10, "docs": s.docs, "root": r, "program": prog})
+            continue
         if rng.random() < 0.3:
             prog, info = cross_party(rng, i)
             r = s.root(cs=rng.random() < 0.5)
